@@ -68,11 +68,16 @@ func (p *pp) Print(args ...interface{}) {
 	if verifOn {
 		verifNested(p, np)
 	}
+	// The buffer is handed back also when a panic crosses the nested
+	// printer (it may have rewritten bytes the outer printer still
+	// counts as its own, e.g. elided a closing marker).
+	defer func() {
+		p.buf = np.buf
+		np.buf = buffer{}
+		np.override = noOverride
+		np.free()
+	}()
 	np.doPrint(args)
-	p.buf = np.buf
-	np.buf = buffer{}
-	np.override = noOverride
-	np.free()
 }
 
 func (p *pp) Printf(format string, arg ...interface{}) {
@@ -85,11 +90,14 @@ func (p *pp) Printf(format string, arg ...interface{}) {
 	if verifOn {
 		verifNested(p, np)
 	}
+	// See Print: hand the buffer back on every path.
+	defer func() {
+		p.buf = np.buf
+		np.buf = buffer{}
+		np.override = noOverride
+		np.free()
+	}()
 	np.doPrintf(format, arg)
-	p.buf = np.buf
-	np.buf = buffer{}
-	np.override = noOverride
-	np.free()
 }
 
 func (p *pp) UnsafeString(s string) {
